@@ -226,6 +226,67 @@ def run(ctx):
     lvl = prog.lints.get('unused_must_use')
     ctx.ob(R5, 'crate·unused_must_use', lvl in ('Deny', 'Forbid'), f'lint level at crate root: {lvl}')
 
+    # R6 ----------------------------------------------------------------------------------------------
+    R6 = 'C15-R6'
+    ctx.rule(R6, 'a statement that fails leaves nothing behind because its storage transaction is dropped uncommitted: the only '
+                 'ways to publish are Transaction::commit (memory: InMemoryTableInner::append/delete; disk: '
+                 'VersionManager::commit_changes from commit_inner), nobody else mutates the published state, and no Drop impl '
+                 'of a transaction publishes')
+    MEM_PUB = re.compile(r'^storage::memory::table::InMemoryTableInner::(append|delete)$')
+    mem_commit = '<storage::memory::transaction::InMemoryTransaction as storage::Transaction>::commit'
+    calls = [c for c in prog.calls_matching_all(MEM_PUB)]
+    ctx.floor(R6, len(calls), 2, 'call sites of InMemoryTableInner::append/delete')
+    for c in calls:
+        ctx.ob(R6, f'memory·{short(c.name).rsplit("::", 1)[-1]}·from·{c.body.root}', c.body.root == mem_commit,
+               f'{c.name} is called from {c.body.name}; only InMemoryTransaction::commit may publish (a write from append()/delete() '
+               f'would survive a failing statement)', [site(c.body, c.bb)],
+               what=f'the in-memory table is mutated outside commit ({c.body.root}): rows of a failing statement stay visible')
+    # nobody but InMemoryTableInner's own methods takes a mutable path to its fields
+    INNER = 'storage::memory::table::InMemoryTableInner'
+    n_w = 0
+    for b in prog.bodies.values():
+        muts = []
+        for i, st in b.stmts():
+            if st['s'] != 'assign':
+                continue
+            lhs_f = [f for f in (x[2:] for x in st['lhs']['p'] if x.startswith('f:')) if f.startswith(INNER + '::')]
+            rv = st['rv']
+            ref_f = []
+            if rv.get('rv') == 'ref' and rv.get('mut'):
+                ref_f = [f for f in (x[2:] for x in rv['pl']['p'] if x.startswith('f:')) if f.startswith(INNER + '::')]
+            if lhs_f or ref_f:
+                muts.append((i, (lhs_f or ref_f)[0]))
+        if not muts:
+            continue
+        n_w += 1
+        own = b.root.startswith(INNER + '::')
+        ctx.ob(R6, f'memory·field-writer·{b.root}', own,
+               f'{b.name} writes {sorted({m[1] for m in muts})}: only InMemoryTableInner\'s own methods may', [site(b, muts[0][0])])
+    ctx.floor(R6, n_w, 2, 'functions that mutate InMemoryTableInner fields')
+    DISK_OK = {'storage::secondary::transaction::SecondaryTransaction::commit_inner',
+               'storage::secondary::compactor::Compactor::compact_table',
+               'storage::secondary::manifest::<impl storage::secondary::SecondaryStorage>::create_table_inner',
+               'storage::secondary::manifest::<impl storage::secondary::SecondaryStorage>::drop_table_inner',
+               'storage::secondary::storage::<impl storage::secondary::SecondaryStorage>::bootstrap'}
+    cc = prog.calls_matching_all(re.compile(r'VersionManager::(commit_changes|rewrite_changes)$'))
+    ctx.floor(R6, len(cc), 5, 'call sites of VersionManager::commit_changes / rewrite_changes')
+    for c in cc:
+        ctx.ob(R6, f'disk·commit_changes·from·{c.body.root}', c.body.root in DISK_OK,
+               f'{c.name} called from {c.body.name}', [site(c.body, c.bb)])
+    ci = prog.calls_matching_all(re.compile(r'SecondaryTransaction::commit_inner$'))
+    for c in ci:
+        ok = c.body.root == '<storage::secondary::transaction::SecondaryTransaction as storage::Transaction>::commit'
+        ctx.ob(R6, f'disk·commit_inner·from·{c.body.root}', ok, f'commit_inner called from {c.body.name}', [site(c.body, c.bb)])
+    ctx.anchor(R6, 'SecondaryTransaction::commit_inner callers', ci)
+    # a Drop impl on a transaction type must not publish
+    for i in prog.impls:
+        if i.get('trait') == 'std::ops::Drop' and re.search(r'storage::(memory|secondary)::transaction::', i.get('self_adt') or ''):
+            pub = False
+            for m in i['items']:
+                if m in prog.bodies:
+                    pub = pub or prog.group_reaches_call(prog.bodies[m].root, re.compile(r'commit_changes$|InMemoryTableInner::(append|delete)$|commit_inner$'), 6)
+            ctx.ob(R6, f'drop·{i["self_adt"]}', not pub, f'Drop for {i["self_adt"]} must not publish', [i['loc']])
+
 
 def short(n):
     return re.sub(r'<[^<>]*>', '', n or '?')
